@@ -326,20 +326,27 @@ def build_scenarios(prop, tier, rnd):
         for i, ops in enumerate([[]] + walks):
             ops = [o for o in ops if o["op"] != "reopen"]
             for n in ([1, 2, 10000] if q else NS):
-                trials = [{"n2": n2, "ver": v} for n2 in NS for v in (4,)] + [{"n2": n, "ver": v} for v in (3, 5, 0)] + \
-                         [{"n2": n, "ver": 4, "pre2": False}]
+                after = [{"op": "put", "k": 4, "c": "C"}, {"op": "put", "k": 3, "c": "G"}, {"op": "put", "k": 2, "c": "E"}, {"op": "del", "k": 4}]
+                trials = [{"n2": n2, "ver": v, "ops": after[: 1 + (n2 % 3)]} for n2 in NS for v in (4,)] + [{"n2": n, "ver": v} for v in (3, 5, 0)] + \
+                         [{"n2": n, "ver": 4, "pre2": False, "ops": after},
+                          # created without the pre-created tree, reopened by a caller who asks for it: the stored choice rules
+                          {"n2": n, "ver": 4, "pre2": True, "ops": after}]
                 add(ops, {"kt": KTS[i % len(KTS)], "n": n, "sync": True, "pre": False}, {"mode": "gate", "trials": trials}, chunk=i)
         # pre-created directory tree (65 792 directories): twice per run
         for pre in (True, False):
             add(WITNESS[2], {"kt": "string", "n": 2, "sync": True, "pre": pre},
-                {"mode": "gate", "trials": [{"n2": 2, "ver": 4, "pre2": not pre}, {"n2": 3, "ver": 4, "pre2": pre}]})
+                {"mode": "gate", "trials": [{"n2": 2, "ver": 4, "pre2": not pre,
+                                             "ops": [{"op": "put", "k": 4, "c": "C"}, {"op": "put", "k": 3, "c": "B"}, {"op": "del", "k": 4}]},
+                                            {"n2": 3, "ver": 4, "pre2": pre}]})
     return sc
 
 
 PROP_TAGS = {
     "C01": ["C01:"], "C02": ["C02:"], "C07": ["C07:"], "C12": ["C12:"], "C13": ["C13:"],
     "C03": ["C03:"], "C06": ["C06:"], "C20": ["C20:"], "C08": ["C08:"], "C09": ["C09:"],
-    "C10": ["C10:"], "C14": ["C14:"], "C19": ["C19:"],
+    # C19's scenarios continue to use the store after an admitted open (e.g. with the other pre-creation choice):
+    # "does not change behaviour observably" is judged with the ordinary per-operation conjuncts
+    "C10": ["C10:"], "C14": ["C14:"], "C19": ["C19:", "C01:", "C07:", "C12:", "C02:"],
 }
 PROP_INV = {
     "C01": ["Inv_C01"], "C02": ["Inv_C02", "Inv_OpenOk"], "C07": ["Inv_C07"], "C12": ["Inv_C12"], "C13": ["Inv_C01", "Inv_C07"],
